@@ -9,29 +9,29 @@ Definition and_short (l : value) : value := match l with VBool _ => VBool false 
 Lemma eval_and_short f a b sc w l w' :
   eval f a sc w = (Ok l, w') -> to_bool l = false ->
   eval (S f) (ELog LAnd a b) sc w = (Ok (and_short l), w').
-Proof. intros H Hb. cbn [eval]. unfold bind. rewrite H, Hb. reflexivity. Qed.
+Proof. intros H Hb. cbn [eval_g]. unfold bind. rewrite H, Hb. reflexivity. Qed.
 
 Lemma eval_and_long f a b sc w l w' :
   eval f a sc w = (Ok l, w') -> to_bool l = true ->
   eval (S f) (ELog LAnd a b) sc w = eval f b sc w'.
-Proof. intros H Hb. cbn [eval]. unfold bind. rewrite H, Hb. reflexivity. Qed.
+Proof. intros H Hb. cbn [eval_g]. unfold bind. rewrite H, Hb. reflexivity. Qed.
 
 Lemma eval_or_short f a b sc w l w' :
   eval f a sc w = (Ok l, w') -> to_bool l = true ->
   eval (S f) (ELog LOr a b) sc w = (Ok l, w').
-Proof. intros H Hb. cbn [eval]. unfold bind. rewrite H, Hb. reflexivity. Qed.
+Proof. intros H Hb. cbn [eval_g]. unfold bind. rewrite H, Hb. reflexivity. Qed.
 
 Lemma eval_or_long f a b sc w l w' :
   eval f a sc w = (Ok l, w') -> to_bool l = false ->
   eval (S f) (ELog LOr a b) sc w = eval f b sc w'.
-Proof. intros H Hb. cbn [eval]. unfold bind. rewrite H, Hb. reflexivity. Qed.
+Proof. intros H Hb. cbn [eval_g]. unfold bind. rewrite H, Hb. reflexivity. Qed.
 
 (* a failing left operand: nothing else is evaluated *)
 Lemma eval_log_left_fails f o a b sc w r w' :
   eval f a sc w = (r, w') -> (forall v, r <> Ok v) ->
   eval (S f) (ELog o a b) sc w = (recast r, w').
 Proof.
-  intros H Hr. cbn [eval]. unfold bind. rewrite H.
+  intros H Hr. cbn [eval_g]. unfold bind. rewrite H.
   destruct r; try reflexivity. exfalso; eapply Hr; reflexivity.
 Qed.
 
@@ -39,62 +39,78 @@ Qed.
 Lemma eval_cond_true f c t e sc w cv w' :
   eval f c sc w = (Ok cv, w') -> to_bool cv = true ->
   eval (S f) (ECond c (Some t) e) sc w = eval f t sc w'.
-Proof. intros H Hb. cbn [eval]. unfold bind. rewrite H, Hb. reflexivity. Qed.
+Proof. intros H Hb. cbn [eval_g]. unfold bind. rewrite H, Hb. reflexivity. Qed.
 Lemma eval_cond_true_short f c e sc w cv w' :
   eval f c sc w = (Ok cv, w') -> to_bool cv = true ->
   eval (S f) (ECond c None e) sc w = (Ok cv, w').
-Proof. intros H Hb. cbn [eval]. unfold bind. rewrite H, Hb. reflexivity. Qed.
+Proof. intros H Hb. cbn [eval_g]. unfold bind. rewrite H, Hb. reflexivity. Qed.
 Lemma eval_cond_false f c t e sc w cv w' :
   eval f c sc w = (Ok cv, w') -> to_bool cv = false ->
   eval (S f) (ECond c t e) sc w = eval f e sc w'.
-Proof. intros H Hb. cbn [eval]. unfold bind. rewrite H, Hb. reflexivity. Qed.
+Proof. intros H Hb. cbn [eval_g]. unfold bind. rewrite H, Hb. reflexivity. Qed.
 
 (* ---------- binary operators: left operand first, then the right one *)
 Lemma eval_math_order f o a b sc w l w1 r w2 :
   eval f a sc w = (Ok l, w1) -> eval f b sc w1 = (Ok r, w2) ->
   eval (S f) (EMath o a b) sc w = (op_math o l r, w2).
-Proof. intros H1 H2. cbn [eval]. unfold bind, lift. rewrite H1, H2. destruct (op_math o l r); reflexivity. Qed.
+Proof. intros H1 H2. cbn [eval_g]. unfold bind, lift. rewrite H1, H2. destruct (op_math o l r); reflexivity. Qed.
 Lemma eval_math_left_fails f o a b sc w r w' :
   eval f a sc w = (r, w') -> (forall v, r <> Ok v) ->
   eval (S f) (EMath o a b) sc w = (recast r, w').
 Proof.
-  intros H Hr. cbn [eval]. unfold bind. rewrite H.
+  intros H Hr. cbn [eval_g]. unfold bind. rewrite H.
   destruct r; try reflexivity. exfalso; eapply Hr; reflexivity.
 Qed.
 Lemma eval_cmp_order f o a b sc w l w1 r w2 :
   eval f a sc w = (Ok l, w1) -> eval f b sc w1 = (Ok r, w2) ->
   eval (S f) (ECmp o a b) sc w = (Ok (VBool (op_cmp o l r)), w2).
-Proof. intros H1 H2. cbn [eval]. unfold bind, ret. rewrite H1, H2. reflexivity. Qed.
+Proof. intros H1 H2. cbn [eval_g]. unfold bind, ret. rewrite H1, H2. reflexivity. Qed.
 
-(* ---------- error suppression never yields an error *)
+(* ---------- error suppression never yields an error — except termination,
+   which is never swallowed *)
 Lemma eval_suppress_total f a sc w e w' :
-  eval (S f) (ESuppress a) sc w <> (Err e, w').
+  eval (S f) (ESuppress a) sc w = (Err e, w') -> e = ETerminated.
 Proof.
-  cbn [eval]. destruct (eval f a sc w) as [r w1]. destruct r; intro H; inversion H.
+  cbn [eval_g]. destruct (eval f a sc w) as [r w1]. destruct r as [v|e0| | | | |]; intro H; try (inversion H; fail).
+  destruct e0; inversion H; reflexivity.
 Qed.
 Lemma eval_suppress_ok f a sc w v w' :
   eval f a sc w = (Ok v, w') -> eval (S f) (ESuppress a) sc w = (Ok v, w').
-Proof. intro H. cbn [eval]. rewrite H. reflexivity. Qed.
+Proof. intro H. cbn [eval_g]. rewrite H. reflexivity. Qed.
 Lemma eval_suppress_err f a sc w e w' :
-  eval f a sc w = (Err e, w') -> eval (S f) (ESuppress a) sc w = (Ok VNone, w').
-Proof. intro H. cbn [eval]. rewrite H. reflexivity. Qed.
+  eval f a sc w = (Err e, w') -> e <> ETerminated ->
+  eval (S f) (ESuppress a) sc w = (Ok VNone, w').
+Proof. intros H C. cbn [eval_g]. rewrite H. destruct e; try reflexivity. contradiction. Qed.
+Lemma eval_suppress_keeps_termination f a sc w w' :
+  eval f a sc w = (Err ETerminated, w') ->
+  eval (S f) (ESuppress a) sc w = (Err ETerminated, w').
+Proof. intros H. cbn [eval_g]. rewrite H. reflexivity. Qed.
+(* the mirror of the pinned tree swallowed it *)
+Lemma suppress_swallows_termination_pinned f a sc w w' :
+  eval_g false f a sc w = (Err ETerminated, w') ->
+  eval_g false (S f) (ESuppress a) sc w = (Ok VNone, w').
+Proof. intro H. cbn [eval_g]. rewrite H. reflexivity. Qed.
 
 (* ---------- optional chaining: a failing source of  src?.x  yields none and
-   evaluates nothing else *)
+   evaluates nothing else (termination excepted) *)
 Lemma eval_member_optional_source f src s rest sc w e w' :
-  eval f src sc w = (Err e, w') ->
+  eval f src sc w = (Err e, w') -> e <> ETerminated ->
   eval (S f) (EMember src (Seg true s :: rest)) sc w = (Ok VNone, w').
-Proof. intro H. cbn [eval]. rewrite H. reflexivity. Qed.
+Proof. intros H C. cbn [eval_g]. rewrite H. destruct e; try reflexivity. contradiction. Qed.
+Lemma eval_member_optional_keeps_termination f src s rest sc w w' :
+  eval f src sc w = (Err ETerminated, w') ->
+  eval (S f) (EMember src (Seg true s :: rest)) sc w = (Err ETerminated, w').
+Proof. intros H. cbn [eval_g]. rewrite H. reflexivity. Qed.
 Lemma eval_member_source_fails f src s rest sc w e w' :
   eval f src sc w = (Err e, w') ->
   eval (S f) (EMember src (Seg false s :: rest)) sc w = (Err e, w').
-Proof. intro H. cbn [eval]. rewrite H. reflexivity. Qed.
+Proof. intro H. cbn [eval_g]. rewrite H. destruct e; reflexivity. Qed.
 
 (* ---------- a call checks the context, evaluates arguments left to right,
    then calls; a cancelled context prevents everything *)
 Lemma eval_call_cancelled f g args sc w :
   w_cancelled w = true -> eval (S f) (ECall g args) sc w = (Err ETerminated, w).
-Proof. intro H. cbn [eval]. unfold bind, check_ctx. rewrite H. reflexivity. Qed.
+Proof. intro H. cbn [eval_g]. unfold bind, check_ctx. rewrite H. reflexivity. Qed.
 
 (* ---------- nested FOR: the outer loop appends the inner results as they are *)
 Definition push_spread (acc : fres) (v : value) : fres := fres_push false true false v acc.
